@@ -751,3 +751,43 @@ def hex_arith(fns, src, nmax, lo=0, hi=15, name=None):
     if paths == 0:
         res.verdict, res.reason = 'inconclusive', 'vacuity: no path'
     return finish(res, ex, t0, paths, unw)
+
+
+# ----------------------------------------------------------------------------------------------- translator validation
+def validate_iter(fns, src, nmax):
+    """Concrete instances of the iterator scenarios (all symbols fixed): the executor's predictions - returned element index,
+    new (index, index_back), ledger of dropped elements - are compared by the caller with what the compiled crate really does."""
+    out = []
+    for n in range(0, 4):
+        for f in range(0, n + 1):
+            for b in range(0, n - f + 1):
+                for which in ('nth', 'nth_back', 'next', 'next_back'):
+                    for k in (range(0, n + 2) if which.startswith('nth') else [0]):
+                        N, I, B, a, J = syms('N', 'index', 'index_back', 'n', 'J')
+                        ex = Exec(fns, src, J, N, nmax=nmax)
+                        A = Arr('A', N)
+                        st = new_state()
+                        st.pc += [N == n, I == f, B == n - b, a == k]
+                        it = iter_state(ex, st, A, I, B, N, J)
+                        trait = 'Iterator' if which in ('nth', 'next') else 'DoubleEndedIterator'
+                        fn = ex.pick(ex.index[(trait, 'GenericArrayIter', which)])
+                        args = [Ref(it, ()), a] if which.startswith('nth') else [Ref(it, ())]
+                        for (s2, kind, val) in ex.run_fn(st, fn, args):
+                            if kind != 'ret':
+                                continue
+                            so = z3.Solver()
+                            so.add(*s2.pc)
+                            assert so.check() == z3.sat
+                            m = so.model()
+                            cur = s2.get(it, ())
+                            ev = lambda t: m.eval(t, model_completion=True).as_long()
+                            ret = ev(val.fields[0].idx) if val.variant == 'Some' else None
+                            dropped = []
+                            for j in range(n):
+                                so2 = z3.Solver()
+                                so2.add(*s2.pc)
+                                so2.add(J == j, s2.status[A] == DROPPED)
+                                if so2.check() == z3.sat:
+                                    dropped.append(j)
+                            out.append({'n': n, 'front': f, 'back': b, 'op': which, 'arg': k, 'ret': ret, 'index': ev(cur[1]), 'index_back': ev(cur[2]), 'dropped': dropped})
+    return out
